@@ -31,6 +31,7 @@ def run_unit(A, unit, rep, tier):
     if kind == "merge":
         return check_merge(A, rep)
     if kind == "loaders":
+        check_first_buffered_load(A, rep)
         return check_loaders(A, rep)
     cls = A.model.find_class(name)
     eps = A.entry_points(cls)
@@ -80,7 +81,7 @@ def run_unit(A, unit, rep, tier):
         if ok and not shared_mem:
             loaders = [n.id for n in live(g) if n.kind == "leave" and n["fname"] in ("_load_from_resource", "_load_from_buffer") and recv_is_root_T(n) and own_child(n)]
             for l in loaders:
-                w = g.must_pass(l, [g.exit], [u.id for u in ups])
+                w = g.must_pass(l, [g.exit], [u.id for u in ups] + none_arms(g, loader_rets))
                 if w is not None:
                     ok = False
                     rep.fail("C02.b", norm_key("C02.b", lv.func.qualname, "conditional-merge"),
@@ -88,6 +89,48 @@ def run_unit(A, unit, rep, tier):
                     break
         if ok:
             rep.ok("C02.b", f"C02.b {g.label}: {len(ups)} merge call(s) receive exactly the loader's return value, unconditionally")
+
+
+def none_arms(g, rets):
+    """Arms taken exactly when a loader's return value IS None (nothing to merge: the resource does not exist)."""
+    out = []
+    for n in live(g):
+        if n.kind != "arm":
+            continue
+        c = g.nodes[n["branch"]]["cond"]
+        if c.kind == "cmp" and c.args[0] in ("is", "is not") and c.args[2] == Val("const", None) and any(c.args[1] == r for r in rets):
+            if (c.args[0] == "is") == n["arm"]:
+                out.append(n.id)
+    return out
+
+
+def check_first_buffered_load(A, rep):
+    """C02.b for the first access in buffered mode: what _load_from_buffer reads from the resource is merged into the
+    tree on every path (only a None result - resource missing - may skip the merge)."""
+    seen = {}
+    for cls in A.concrete():
+        if A.is_buffered(cls):
+            owner, v = A.model.lookup(cls, "_load_from_buffer")
+            seen.setdefault(v.func, cls)
+    for func, cls in seen.items():
+        for mu in [m_ for m_ in A.modes(cls) if m_ != "none"]:
+            b, g = A.graph(cls, "_load_from_buffer", "root", mu)
+            rep.context(g.label, True)
+            loads = [n for n in live(g) if n.kind == "leave" and n["fname"] == "_load_from_resource" and recv_is_root_T(n)]
+            ups = [n.id for n in live(g) if is_enter(n, "_update") and recv_is_root_T(n)]
+            rets = [n["ret"] for n in loads]
+            bad = None
+            for l in loads:
+                w = g.must_pass(l.id, [g.exit], ups + none_arms(g, rets))
+                if w is not None:
+                    bad = w
+                    break
+            if loads and bad is None:
+                rep.ok("C02.b", f"C02.b {g.label}: the content read on the first buffered access is merged into the tree on every path")
+            elif loads:
+                rep.fail("C02.b", norm_key("C02.b", func.qualname, "conditional-merge"),
+                         f"{func.qualname}: after reading the resource on the first buffered access there is a path that does not merge the content into the tree (e.g. a falsiness test: an emptied collection keeps its stale data, which is then buffered and flushed back)",
+                         g.witness(bad), g.label)
 
 
 def update_impls(A):
@@ -316,5 +359,43 @@ def check_loaders(A, rep):
             ok = False
             rep.fail("C02.f", norm_key("C02.f", func.qualname, "no-content-read"),
                      f"{func.qualname} can return without reading the resource's content (e.g. a 'nothing changed' shortcut based on metadata): outside rewrites are not seen", g.witness(w or []), g.label)
+        # the loader has no memory: it uses only the instance fields that address the resource and stores none -
+        # a "same as last time" shortcut (remembered blob / stamp) hides a rewrite that restores earlier content (ABA)
+        def vals_of(n):
+            out = []
+            for k_, v_ in n.a.items():
+                if isinstance(v_, Val):
+                    out.append(v_)
+                elif isinstance(v_, (tuple, list)):
+                    out += [x for x in v_ if isinstance(x, Val)]
+                    out += [x[1] for x in v_ if isinstance(x, tuple) and len(x) == 2 and isinstance(x[1], Val)]
+                elif isinstance(v_, dict):
+                    out += [x for x in v_.values() if isinstance(x, Val)]
+            return out
+
+        def self_fields(n):
+            return {x.args[1] for v_ in vals_of(n) for x in v_.walk() if x.kind == "field" and x.args[0].kind == "inst" and x.args[0].args[2] == "T"}
+
+        f_res, f_all, stores = set(), {}, []
+        for n in live(g):
+            if not own(n):
+                continue
+            names = self_fields(n)
+            if is_res_read(n) or (n.kind == "call_ext" and n["callee"] in ("builtins.open", "io.open")) or content_read(n):
+                f_res |= names
+            for nm in names:
+                f_all.setdefault(nm, n)
+            if n.kind in ("attr_store", "attr_del") and n["base"] is not None and n["base"].kind == "inst":
+                stores.append(n)
+        extra = {nm: n for nm, n in f_all.items() if nm not in f_res}
+        for nm, n in sorted(extra.items()):
+            ok = False
+            rep.fail("C02.f", norm_key("C02.f", func.qualname, "memory", nm),
+                     f"{func.qualname} consults the instance field `{nm}` (`{n.stmt}`), which does not address the resource: what the loader returns depends on what this object loaded or saved before, so a rewrite of the resource can go unseen (e.g. content restored to an earlier value)",
+                     [n.where() + ": " + n.stmt], g.label)
+        for n in stores:
+            ok = False
+            rep.fail("C02.f", norm_key("C02.f", func.qualname, "memory-store", n["name"]),
+                     f"{func.qualname} stores the instance attribute `{n['name']}` (`{n.stmt}`): a loader that remembers what it loaded can only use it to skip work later", [n.where() + ": " + n.stmt], g.label)
         if ok:
-            rep.ok("C02.f", f"C02.f {func.qualname}: only a missing resource yields None; {len(hs)} handler(s) re-raise everything else; every path reads the content")
+            rep.ok("C02.f", f"C02.f {func.qualname}: only a missing resource yields None; {len(hs)} handler(s) re-raise everything else; every path reads the content; no state besides the resource address {sorted(f_res)}")
